@@ -77,13 +77,13 @@ def canonicalize_url(
     # Quotes
     if user:
         if quoted:
-            user = safely_quote(user)
+            user = safely_quote(safely_unquote_auth_item(user))
         else:
             user = safely_unquote_auth_item(user)
 
     if password:
         if quoted:
-            password = safely_quote(password)
+            password = safely_quote(safely_unquote_auth_item(password))
         else:
             password = safely_unquote_auth_item(password)
 
@@ -95,7 +95,7 @@ def canonicalize_url(
     qsl = safe_qsl_iter(query)
 
     if quoted:
-        qsl = safely_quote_qsl(qsl)
+        qsl = safely_quote_qsl(safely_unquote_qsl(qsl))
     else:
         qsl = safely_unquote_qsl(qsl)
 
@@ -103,7 +103,7 @@ def canonicalize_url(
 
     if fragment:
         if quoted:
-            fragment = safely_quote(fragment)
+            fragment = safely_quote(safely_unquote_fragment(fragment))
         else:
             fragment = safely_unquote_fragment(fragment)
 
